@@ -148,6 +148,7 @@ type Worker struct {
 	initedPkgs map[*ssa.Package]bool
 	consts     map[*ssa.Const]Value
 	implCache  map[interface{}]bool
+	identCache map[typePair]bool
 	intrCache  map[*ssa.Function]intrinsic
 	ptrSlices  map[*Value]Slice
 	funcsSeen  map[*ssa.Function]bool
@@ -205,6 +206,7 @@ func (e *Engine) newWorker(id int) (*Worker, error) {
 	w.initedPkgs = map[*ssa.Package]bool{}
 	w.consts = map[*ssa.Const]Value{}
 	w.implCache = map[interface{}]bool{}
+	w.identCache = map[typePair]bool{}
 	w.intrCache = map[*ssa.Function]intrinsic{}
 	w.ptrSlices = map[*Value]Slice{}
 	w.funcsSeen = map[*ssa.Function]bool{}
@@ -580,6 +582,15 @@ func (w *Worker) assertObligation(fr *frame, c Bool, label string) {
 			w.reportViolation("assert", label, w.callerSite(fr), "assertion "+label+" is false on this path", nil)
 			panic(pathAbort{"done", "assertion failed concretely"})
 		}
+		return
+	}
+	// a counterexample for this assertion is already recorded: do not search for
+	// another one (satisfiable division queries are slow), just continue under it
+	w.E.mu.Lock()
+	_, have := w.E.Violations[w.E.Harness+"|assert:"+label]
+	w.E.mu.Unlock()
+	if have {
+		w.assume(c.T, "after-violation:"+label)
 		return
 	}
 	neg := w.P.BNot(c.T)
